@@ -287,7 +287,9 @@ func c17Page(rt *rapid.T) (files map[string]string, page string, markers []strin
 	long := "zz" + strings.Repeat("VeryLongIdentifier_", 16) // messages that embed a name can be long: shown whole or not at all
 	fault := rapid.SampledFrom([]string{"{{ zzMissing }}", "{{ 1 / 0 }}", "{{ name + 1 }}", "{{ name.nosuchfn() }}", "{{ {a: 1}.zz }}",
 		"{{ " + long + " }}", "{{ {a: 1}." + long + " }}", "{{ name." + long + "() }}"}).Draw(rt, "fault")
-	shape := rapid.SampledFrom([]string{"ok", "ok-layout", "top", "in-loop", "in-layout", "in-component", "in-slot", "missing", "after-nested-render", "ok-nested-render"}).Draw(rt, "shape")
+	shape := rapid.SampledFrom([]string{"ok", "ok-layout", "top", "in-loop", "in-layout", "in-component", "in-slot", "missing", "after-nested-render", "ok-nested-render",
+		"in-each-else", "in-for-else", "in-nested-else", "in-elseif", "in-header", "in-control", "in-insert-expression"}).Draw(rt, "shape")
+	faultExpr := strings.TrimSuffix(strings.TrimPrefix(fault, "{{ "), " }}")
 	files["other"] = "<OTHER-MARK>{{ 1 + 1 }}</OTHER-MARK>"
 	note = shape
 	page = "page"
@@ -311,6 +313,29 @@ func c17Page(rt *rapid.T) (files map[string]string, page string, markers []strin
 	case "in-slot":
 		files["page"], fails = b.String()+"@component(\"comp\", {v: 1})\n@slot SLOT-MARK"+fault+"@end\n@end;", true
 		markers = append(markers, "COMP-MARK", "SLOT-MARK")
+	case "in-each-else":
+		files["page"], fails = b.String()+"@each(i in [])never@else<i>ELSE-MARK</i>"+fault+"@end\nAFTER-MARK", true
+		markers = append(markers, "ELSE-MARK", "AFTER-MARK")
+	case "in-for-else":
+		files["page"], fails = b.String()+"@for(i = 0; i < 0; i++)never@else<i>ELSE-MARK</i>"+fault+"@end\nAFTER-MARK", true
+		markers = append(markers, "ELSE-MARK", "AFTER-MARK")
+	case "in-nested-else":
+		files["page"], fails = b.String()+"@each(o in [1, 2])LOOP-MARK@if(o == 2)@each(i in [])never@else"+fault+"@end@end@end\nAFTER-MARK", true
+		markers = append(markers, "LOOP-MARK", "AFTER-MARK")
+	case "in-elseif":
+		files["page"], fails = b.String()+rapid.SampledFrom([]string{"@if(false)a@elseif("+faultExpr+")b@else c@end", "@if(false)a@elseif(true)"+fault+"@else c@end", "@if(false)a@elseif(false)b@else"+fault+"@end",
+			"{{ true ? "+faultExpr+" : 1 }}", "{{ false ? 1 : "+faultExpr+" }}", "{{ ["+faultExpr+"] }}", "{{ x = "+faultExpr+" }}", "{{ 1; "+faultExpr+" }}"}).Draw(rt, "branchForm")+"\nAFTER-MARK", true
+		markers = append(markers, "AFTER-MARK")
+	case "in-header":
+		files["page"], fails = b.String()+rapid.SampledFrom([]string{"@if("+faultExpr+")a@end", "@each(i in ["+faultExpr+"])a@end", "@each(i in "+faultExpr+")a@else b@end", "@for(i = "+faultExpr+"; i < 2; i++)a@end",
+			"@for(i = 0; "+faultExpr+"; i++)a@end", "@for(i = 0; i < 2; "+faultExpr+")LOOP-MARK@end"}).Draw(rt, "headerForm")+"\nAFTER-MARK", true
+		markers = append(markers, "AFTER-MARK")
+	case "in-control":
+		files["page"], fails = b.String()+"@each(i in [1, 2])LOOP-MARK"+rapid.SampledFrom([]string{"@breakIf(", "@continueIf("}).Draw(rt, "ctlForm")+faultExpr+")@end\nAFTER-MARK", true
+		markers = append(markers, "AFTER-MARK", "LOOP-MARK")
+	case "in-insert-expression":
+		files["page"], fails = "@use(\"~l\")@insert(\"body\", "+faultExpr+")"+b.String(), true
+		markers = append(markers, "LAYOUT-MARK")
 	case "after-nested-render":
 		// a custom function renders another template of the directory (one that works, fails or
 		// does not exist) through Response, then the page fails
@@ -328,7 +353,7 @@ func c17Page(rt *rapid.T) (files map[string]string, page string, markers []strin
 
 func TestC17_Configurations(t *testing.T) {
 	c := harness.New(t, "C17", "configurations",
-		"all combinations of {debug on, off} x {no custom error page, a working one, one that does not exist, one that fails at run time} x generated pages {succeeding (plain, with layout and component); failing at run time after 1..4 uniquely marked chunks at top level, inside a loop pass, inside a layout's insert, inside a component argument, inside a slot body, because of the data (a value of an unsupported kind or the reserved key loop: failures without a file path), after a registered function has rendered another template of the directory (working, failing, missing) through Response; not existing} x data: success -> nil and body == String(); failure -> non-nil error, no marker of the failed page in the body, body == custom page (working one, debug off) / empty (custom page itself fails, debug off) / built-in page (rendered differentially from default-error-page.tw with the failure's fields); debug off -> neither message nor any path in the body; debug on -> message, path and line in it (the path being that of the page's own file, where every generated fault is written). In one case in six some of the files (the page, the custom error page, the component, the layout) are symbolic links to regular files kept outside the directory. One case in eight uses no configuration at all (NewTemplate(nil) over templates/*.tw.html): the documented defaults, debug off and no custom page, apply. Non-trivial: failing page and a non-default configuration, or the defaults. Distinct by hash.")
+		"all combinations of {debug on, off} x {no custom error page, a working one, one that does not exist, one that fails at run time} x generated pages {succeeding (plain, with layout and component); failing at run time after 1..4 uniquely marked chunks at top level, inside a loop pass, inside a layout's insert, inside a component argument, inside a slot body, inside the @else of an empty @each / @for (also nested in a loop pass), in an @elseif condition / @elseif body / @else body / ternary branch / array element / assignment / second statement of a print, in the header of @if / @each / @for (each clause), in @breakIf / @continueIf, in the expression form of an insert, because of the data (a value of an unsupported kind or the reserved key loop: failures without a file path), after a registered function has rendered another template of the directory (working, failing, missing) through Response; not existing} x data: success -> nil and body == String(); failure -> non-nil error, no marker of the failed page in the body, body == custom page (working one, debug off) / empty (custom page itself fails, debug off) / built-in page (rendered differentially from default-error-page.tw with the failure's fields); debug off -> neither message nor any path in the body; debug on -> message, path and line in it (the path being that of the page's own file, where every generated fault is written). In one case in six some of the files (the page, the custom error page, the component, the layout) are symbolic links to regular files kept outside the directory. One case in eight uses no configuration at all (NewTemplate(nil) over templates/*.tw.html): the documented defaults, debug off and no custom page, apply. Non-trivial: failing page and a non-default configuration, or the defaults. Distinct by hash.")
 	defer c.Finish()
 	runRapid(t, c, 3000, 30000, func(rt *rapid.T) {
 		files, page, markers, fails, note := c17Page(rt)
